@@ -130,8 +130,26 @@ def gen_cases(rng, tier):
                 for hk in ("hdr", "aot"):
                     head = (b"[" + dotted(nh) + b"]\n") if hk == "hdr" else (b"[[" + dotted(nh) + b"]]\n")
                     for kv in kinds:
-                        add(head + dotted(nd) + b" = " + shape(kv, nv, shape("arr", 3)) + b"\n",
-                            {"kind": "prod3:%s+dotted+%s" % (hk, kv), "n": nh + nd + nv})
+                        meta = {"kind": "prod3:%s+dotted+%s" % (hk, kv), "n": nh + nd + nv}
+                        # the limits are per construct: a header path, a dotted key and a value that EACH stay below the limit
+                        # make a document that must be accepted, however large their sum (plain nesting kinds only: for
+                        # `inldot` the dotted key counts towards the value's own nesting)
+                        if kv in ("arr", "inl") and nh <= LIMIT - 2 and nd <= LIMIT - 2 and nv + 3 <= LIMIT - 2:
+                            meta["must_accept"] = True
+                        add(head + dotted(nd) + b" = " + shape(kv, nv, shape("arr", 3)) + b"\n", meta)
+    # a dotted key and a nested value on ONE top-level line, each below the limit, their sum at and beyond it
+    for nd, nv in [(41, 40), (50, 50), (60, 30), (20, 70), (77, 77), (40, 39), (1, 77), (77, 1)]:
+        for kv in ("arr", "inl"):
+            add(dotted(nd) + b" = " + shape(kv, nv) + b"\n", {"kind": "dotted+%s-sum" % kv, "n": nd + nv, "expect": "ok", "must_accept": True})
+            add(b"[" + dotted(30) + b"]\n" + dotted(nd) + b" = " + shape(kv, nv) + b"\n",
+                {"kind": "hdr+dotted+%s-sum" % kv, "n": 30 + nd + nv, "expect": "ok", "must_accept": True})
+    # MANY containers are not DEEP containers: the nesting counter must come back down after every one of them, the empty ones
+    # included (an early return that skips the bookkeeping leaks one level per container)
+    for n in [79, 80, 81, 100, 200, 500]:
+        for e in (b"[]", b"[ ]", b"{}", b"{ }", b"[[]]", b"[{}]", b"{x = []}", b"[1]", b"{x = 1}"):
+            add(b"".join(b"k%d = " % i + e + b"\n" for i in range(n)), {"kind": "many-lines", "n": n, "expect": "ok", "must_accept": True})
+            add(b"a = [" + b", ".join([e] * n) + b"]\n", {"kind": "many-in-array", "n": n, "expect": "ok", "must_accept": True})
+            add(b"".join(b"[[p]]\nd = " + e + b"\n" for i in range(n)), {"kind": "many-in-aot", "n": n, "expect": "ok", "must_accept": True})
     # sub-tables of arrays of tables, repeated (every level is an array AND a table: two levels per segment),
     # alone and followed by a dotted key leading to a nested value: the ADDITIVE maximum of all limits
     def aot_chain(n):
